@@ -392,7 +392,7 @@ def run(ctx):
         nt += c03b(ctx, tu)
         nr += c03e(ctx, tu)
         c03g(ctx, tu)
-        protocol.report(ctx, tu, lambda r: r in ("C03.d", "C03.b"))
+        protocol.report(ctx, tu, lambda r: True)   # the whole step protocol is a premise of this property
         from rules import C15
         C15.c15c(ctx, tu)    # C03.f: a call beyond the upper bound is reported naming the saturated expectation
         from rules import C04
